@@ -61,6 +61,8 @@ type Config struct {
 	MaxSteps  int64     `json:"max_steps"`  // watchdog budget
 	NumSites  int       `json:"num_sites"`  // size of the site table
 	CountSite bool      `json:"count_site"` // keep per-site visit counts
+	HotSites  []uint32  `json:"hot_sites,omitempty"` // sites at which a switch is additionally taken with probability HotRate/65536
+	HotRate   uint32    `json:"hot_rate,omitempty"`
 }
 
 // Result is what the scheduler measured.
@@ -98,6 +100,7 @@ type sched struct {
 	changeIx int
 	visits   []uint32
 	forcedAt []bool // per site: some Preempt names it
+	hotAt    []bool // per site: listed in HotSites
 	allDone  chan struct{}
 	lowPrio  int
 }
@@ -241,6 +244,9 @@ func yieldSlow(site uint32) {
 			}
 		}
 	}
+	if forced == -2 && s.cfg.HotRate != 0 && int(site) < len(s.hotAt) && s.hotAt[site] && uint32(s.rand()&0xffff) < s.cfg.HotRate {
+		forced = -1
+	}
 	if s.steps < s.nextAt && forced == -2 {
 		return
 	}
@@ -352,6 +358,12 @@ func Run(cfg Config, fns []func()) Result {
 	for _, p := range cfg.Preempts {
 		if int(p.Site) < len(s.forcedAt) {
 			s.forcedAt[p.Site] = true
+		}
+	}
+	s.hotAt = make([]bool, cfg.NumSites)
+	for _, h := range cfg.HotSites {
+		if int(h) < len(s.hotAt) {
+			s.hotAt[h] = true
 		}
 	}
 	done := make(chan struct{}, len(fns))
